@@ -92,6 +92,7 @@ pub fn run_compile(e: &Expression, o: &RunOptions, paths: &[String]) -> Value {
         Err(p) => json!({"st":"panic","msg":cps(&p),"t0":digits_str(&t0.to_string()),"t1":digits_str(&t1.to_string())}),
         Ok(Err(m)) => json!({"st":"err","msg":cps(&m),"t0":digits_str(&t0.to_string()),"t1":digits_str(&t1.to_string())}),
         Ok(Ok(c)) => {
+            if let Ok(ms) = std::env::var("FPVERIF_RENDER_DELAY_MS") { if let Ok(ms) = ms.parse::<u64>() { std::thread::sleep(std::time::Duration::from_millis(ms)); } }
             let mut renders = vec![];
             let mut maps = vec![];
             for p in paths {
